@@ -55,10 +55,22 @@ func init() {
 			for _, d := range dec {
 				ts = append(ts, Task{Pkg: pkg, Func: "VerifC04Decode", Args: d[:], GFMul: true, Timeout: 300, Note: "field, data symbols (free), parity symbols, bit mask of corrupted positions (free non-zero magnitudes)"})
 			}
+			// multi-error decoding on the all-zero word, full length in GF(16), incl. position 0
+			dz := [][6]int64{{0, 15, 6, 0, 7, -1}, {0, 15, 6, 14, 3, -1}, {0, 7, 4, 1, 5, -1}, {0, 15, 4, 0, -1, -1}, {2, 26, 10, 0, -1, -1}, {3, 12, 7, 11, -1, -1}}
+			if tier == "thorough" {
+				for p := int64(1); p < 15; p++ {
+					dz = append(dz, [6]int64{0, 15, 6, 0, p, -1})
+				}
+				dz = append(dz, [6]int64{0, 15, 6, 0, 7, 14}, [6]int64{1, 63, 4, 0, 62, -1}, [6]int64{2, 26, 10, 0, 25, -1})
+			}
+			for _, d := range dz {
+				ts = append(ts, Task{Pkg: pkg, Func: "VerifC04DecodeZero", Args: d[:], GFMul: true, Timeout: 600, Note: "field, word length, parity symbols, up to three error positions (-1 unused); all-zero code word, free non-zero magnitudes"})
+			}
 			return ts
 		},
 		Bounds: func(tier string) map[string]interface{} {
 			b := map[string]interface{}{
+				"rs_decode_zero_word": "all-zero code word with free non-zero error magnitudes: two errors in the full-length GF(16) code (n=15, r=6) including position 0; single errors in GF(256) QR n=26 r=10 and DM n=12 r=7 (thorough: every position pair with position 0, three errors, GF(64) full length)",
 				"fields_multiply": "GF(16), GF(64), both GF(256): every a (concrete, split) x every b (symbolic) = all pairs; GF(1024), GF(4096): 8 blocks of 4 values of a (boundary + seeded) x every b",
 				"fields_inverse_exp_log": "all six fields, every element (symbolic inside chunks of 64): a*inv(a)=1 by the reference product, exp(log a)=a, log(exp i)=i, exp[i+1]=x*exp[i]",
 				"rs_encode": "free data: GF(16) k<=3,r<=5; GF(64) k<=2,r<=3; GF(256) QR and DM k<=2,r<=3; GF(1024)/GF(4096) k=1,r=2",
